@@ -157,6 +157,9 @@ def template(route, mod, name, proto, rng):
   raise KeyError(route)
 
 
+PRELUDES = [b'', b'U\x01\xff0', b'T\x02\x00\x00\x00\xff\xfe0', b"S'\\xff\\xfe'\n0", b'U\x02\xc3(0']
+
+
 def nest(value_bytes, depth, proto):
   """[( 'a.b', (1.0, <value>) )] nested `depth` lists deep"""
   body = b'(' + b'X\x03\x00\x00\x00a.b' + b'(G?\xf0\x00\x00\x00\x00\x00\x00' + value_bytes + b'tt'
@@ -289,11 +292,30 @@ def run(ctx):
         for depth in range(0, ctx.pick(2, 4)):
           for proto in ctx.pick([0, 2, 4], [0, 1, 2, 3, 4, 5]):
             val = template(route, mod, name, proto, rng)
+            # a Python-2 8-bit string with bytes that are not UTF-8, pushed and popped before the reference
+            val = rng.choice(PRELUDES) + val
             ops = [('global' if route != 'inst' else 'inst', ref)]
             for payload, what in ((nest(val, depth, proto), 'nested %s depth %d' % (route, depth)),
                                   (((b'\x80' + bytes([proto])) if proto >= 2 else b'') + val + b'.', 'bare %s' % route)):
               for target in ('receiver', 'query'):
                 recs.append(record(e13, ops, payload, target, '%s %s.%s proto %d' % (what, mod, name, proto)))
+  # configuration: every spelling of "off" that carbon.conf accepts must select the safe unpickler
+  import os
+  from carbon.conf import Settings
+  for spelling in ['False', 'false', 'no', 'off', '0', 'FALSE', 'False ; not needed', 'no (legacy)', 'off # default', 'False  ', 'nope']:
+    cpath = os.path.join(ctx.scratch, 'carbon-unpickler.conf')
+    with open(cpath, 'w') as fh:
+      fh.write('[cache]\nUSE_INSECURE_UNPICKLER = %s\n' % spelling)
+    st = Settings()
+    try:
+      st.readFrom(cpath, 'cache')
+    except Exception:
+      continue                  # the daemon refuses to start with this value: no listener exists
+    e13.wm.settings['USE_INSECURE_UNPICKLER'] = st['USE_INSECURE_UNPICKLER']
+    for target in ('receiver', 'query'):
+      recs.append(record(e13, [('global', 'othermod')], b'cverif_canary\nfire\n)R.', target,
+                         'carbon.conf USE_INSECURE_UNPICKLER = %r' % spelling))
+  e13.wm.settings['USE_INSECURE_UNPICKLER'] = False
   # C. exhaustive lookup sweep over loaded modules
   pairs = []
   for mname in sorted(sys.modules):
